@@ -11,13 +11,36 @@ CFG = {
                    "GeoProofs/Lemmas/C01QDisjoint.lean", "GeoProofs/Lemmas/C01QTypes.lean",
                    "GeoProofs/Lemmas/C01QAreal.lean", "GeoProofs/Lemmas/C01QPoint.lean",
                    "GeoProofs/Lemmas/C01QTriangle.lean", "GeoProofs/Lemmas/C01QLine.lean",
-                   "GeoModel/TRANPrelude.lean", "GeoModel/Gen/DimsGen.lean", "GeoProofs/Lemmas/TRANDims.lean"],
+                   "GeoModel/TRANPrelude.lean", "GeoModel/Gen/DimsGen.lean", "GeoProofs/Lemmas/TRANDims.lean",
+                   "GeoModel/GeomGraph.lean", "GeoModel/RelateImpl.lean", "GeoModel/RelateImplNodes.lean",
+                   "GeoModel/RelateImplTop.lean", "GeoModel/F64.lean",
+                   "GeoProofs/Lemmas/RELMMono.lean", "GeoProofs/Lemmas/RELMDisjoint.lean", "GeoProofs/Lemmas/RELMSwap.lean",
+                   "GeoProofs/Lemmas/RELMAtoms.lean", "GeoProofs/Lemmas/RELMNodes.lean", "GeoProofs/Lemmas/RELMPoint.lean",
+                   "GeoProofs/Lemmas/RELMPoint2.lean", "GeoProofs/Lemmas/RELMPoint3.lean", "GeoProofs/Lemmas/RELMPoint4.lean",
+                   "GeoProofs/Lemmas/RELMPointPoint.lean", "GeoProofs/Lemmas/RELMMultiPoint.lean",
+                   "GeoProofs/Lemmas/RELMOrder1.lean", "GeoProofs/Lemmas/RELMOrder2.lean", "GeoProofs/Lemmas/RELMOrder3.lean",
+                   "GeoProofs/Lemmas/RELMOrder4.lean", "GeoProofs/Lemmas/RELMOrder5.lean",
+                   "GeoProofs/Lemmas/RELMDir.lean", "GeoProofs/Lemmas/RELMStar.lean", "GeoProofs/Lemmas/RELMSym1.lean",
+                   "GeoProofs/Lemmas/RELMSym2.lean", "GeoProofs/Lemmas/RELMSym3.lean", "GeoProofs/Lemmas/RELMSym4.lean",
+                   "GeoProofs/Lemmas/RELMSym5.lean", "GeoProofs/Lemmas/RELMSym6.lean",
+                   "GeoProofs/Lemmas/RELMEnds.lean", "GeoProofs/Lemmas/RELMEnds2.lean",
+                   "GeoProofs/Lemmas/RELMTotal1.lean", "GeoProofs/Lemmas/RELMTotal2.lean", "GeoProofs/Lemmas/RELMTotal3.lean",
+                   "GeoProofs/Lemmas/RELMTotal4.lean", "GeoProofs/Lemmas/RELMTotal5.lean"],
     "rule": "ordered pairs (A, B) over all 10 geometry types (Geometry enum on both sides) drawn from one shared 3..6 grid: polyomino polygons with "
             "holes (incl. holes tangent to the shell), star polygons, rectangles with holes, corner-touching multipolygons, self-avoiding lattice "
             "paths, multi line strings sharing end points (mod-2 rule), half-grid points, same-dimension collections; each case also relates the "
             "operands in the other order and a second representation A' of A (ring start/direction, Rect/Triangle as Polygon, Line as LineString, "
             "singleton Multi*/collection, member order). Operands outside the domain (invalid by the exact Lean validity spec) are SKIPped and counted. "
-            "distinct by input text; cases with disjoint or empty bounding boxes are tagged triv and not counted.",
+            "distinct by input text; cases with disjoint or empty bounding boxes are tagged triv and not counted. "
+            "Every fourth case of the stream is C01.impl <A> <B>: the executable Lean model of the *implementation* (RelateImpl*.lean) against the real "
+            "relate, half with the generators above, half with operands outside the validity domain (self-crossing / back-tracking / collapsed line work, "
+            "random closed rings, degenerate and empty rings, overlapping members of every dimension in nested collections, zero-length Lines, wild floats "
+            "incl. subnormals); AGREE iff the model's matrix (or panic) is the implementation's, prop= is the specification's verdict inside the domain and "
+            "PASS outside. The harness reports the points line_intersection returned for the proper crossings relate can meet (within each operand, between "
+            "the operands); the model is run with these points and emulated binary64 subtraction, and in exact arithmetic (tag rounded-crossing-changes-matrix "
+            "when the two differ). SKIP near-tie:intersection-key-collision: two different points of one segment got the same (segment, rounded distance) key, "
+            "so the R-tree's visiting order decides which one an edge keeps. SKIP underflow-range:orientation-inexact: a coordinate below 2^-400 and the model "
+            "(exact orientation) disagrees with the code (robust::orient2d is not exact there, K10); about 1 in 200 000.",
     "trusted_base": [
         "translator/rs2lean.py + rsexpr.py (statement fragment): regenerates the HasDimensions impl bodies (Line, LineString, Polygon, Rect, Triangle, "
         "MultiLineString::dimensions, MultiPolygon::dimensions) and LineString::is_closed from the Rust source on every run; explicit choices: Vec = List, "
@@ -26,12 +49,20 @@ CFG = {
         "every cell of the arrangement of A ∪ B — not proved; the spec is an independent definition (own winding computation, symbolic infinitesimals)",
         "spec adequacy (S2): for a valid ring, non-zero winding number ⇔ topological interior (Jordan)",
         "interior connectedness of polygons is not part of the executable validity predicate",
+        "model of the implementation (RelateImpl*.lean, GeomGraph.lean): hand-written from relate_operation.rs, edge_end_builder.rs, geomgraph/*.rs, "
+        "geomgraph/index/*.rs; checked against the real code on every run (C01.impl), not generated from it. It tests all segment pairs where the code asks "
+        "an R-tree for the pairs with intersecting envelopes: proved equivalent in exact arithmetic for any candidate list that contains every pair with "
+        "intersecting envelopes, in any order and with repetitions (selfNoding_order_independent, mutualPhase_order_independent); that rstar reports all such "
+        "pairs is an assumption about the external crate; BTreeMap/BTreeSet are sorted association lists with the map's own linear key scan (faithful for "
+        "consistent comparators; with a zero-length Line up to 11 directions per node); robust orientation is exact; debug_asserts are not modelled",
+        "relate's float arithmetic enters the model as a parameter (crossing point of a proper intersection, coordinate subtraction): the theorems hold for "
+        "every instance, relateImpl is the exact instance, the correspondence uses the points the code computed (C11 bounds their error)",
     ],
     "assumptions": ["valid operands in the OGC sense, decided exactly by GeoModel/Valid.lean; grid coordinates (exact in f64)"],
 }
 
 MANIFEST = {
-    "technique": "Lean 4 executable DE-9IM specification with proved matrix algebra + implementation-vs-specification correspondence on grid geometry pairs",
+    "technique": "Lean 4 executable DE-9IM specification with proved matrix algebra + executable Lean model of the topology-graph implementation with proved structural laws + implementation-vs-specification and implementation-vs-model correspondence on grid geometry pairs",
     "text": "relate() is compared, cell for cell, with an executable specification of DE-9IM written in Lean (exact point location with the mod-2 rule, "
             "arrangement atoms with symbolic infinitesimal face samples) that shares no code or algorithm with geo's topology-graph implementation; the same "
             "run demands the transposed matrix for swapped operands and the same matrix for a second representation of the same point set. Proved for all "
@@ -80,7 +111,53 @@ MANIFEST = {
             "Translator tie (TRAN): hasDimensions_eq_source — the dims / boundaryDims / isEmptyG clauses of Line, LineString, Polygon, Rect, Triangle, "
             "MultiPoint, MultiLineString (dimensions, is_empty), MultiPolygon, GeometryCollection (dimensions and boundary_dimensions, the recursive calls being dims / boundaryDims) and "
             "isClosedLS equal the terms regenerated from dimensions.rs / geo-types on this run (MultiLineString::boundary_dimensions — an iterator chain "
-            "with sort_by / chunk_by — and GeometryCollection::is_empty stay hand-written).",
+            "with sort_by / chunk_by — and GeometryCollection::is_empty stay hand-written). "
+            "(9) the implementation itself: relateImpl (GeoModel/RelateImpl.lean, RelateImplNodes.lean, RelateImplTop.lean, on top of the C17 graph "
+            "construction GeomGraph.lean) mirrors RelateOperation::compute_intersection_matrix statement by statement — envelope test and compute_disjoint, "
+            "GeometryGraph::new for both operands, compute_self_nodes (is_rings by geometry type, SegmentIntersector incl. is_trivial_intersection as "
+            "written, Edge::add_intersection with segment-index normalisation and compute_edge_distance, add_self_intersection_nodes), "
+            "compute_edge_intersections (isolated flags, proper / proper-interior flags against the boundary nodes), compute_intersection_nodes (mod-2 "
+            "toggling), copy_nodes_and_labels, label_isolated_nodes / _edges through coordinate_position (GeoModel/Locate.lean), "
+            "compute_proper_intersection_im, EdgeEndBuilder (prev/next stubs), EdgeEnd ordering (quadrant, then orientation), EdgeEndBundle::into_labeled "
+            "(compute_label_on / _side), EdgeEndBundleStar (propagate_side_labels, the dimensional-collapse flag as the loop leaves it, fill from "
+            "coordinate_position), update_intersection_matrix; panics of the code are none. Checked against the real relate on every run (C01.impl: valid "
+            "and invalid operands, zero DIFF). Proved about it, for all inputs and every float-arithmetic instance unless said otherwise: matrix cells only "
+            "ever increase and EE = 2 (impl_*_monotone, relateImpl_ge_proper, relateImplWith_ee, relateImpl_ee); the result is the cell-wise maximum over "
+            "the contributions of the proper-intersection shortcut, isolated edges, nodes and edge-end bundles — the same fold as the specification's "
+            "(relateImpl_eq_fold, relateImpl_cell); the disjoint-envelope shortcut (relateImpl_disjoint_shortcut) is sound: = relateSpec for operands whose "
+            "coordinates lie in their reported rectangles, proved for every type without hole coordinates, empty operands included "
+            "(relateImpl_disjoint_eq_spec_partial, _noInteriors; inherits DimsSpec); label-swap invariance: the graph a prepared geometry hands out "
+            "(clone_for_arg_index of the cache self-noded for index 0) is the freshly built and self-noded graph in either operand position, hence prepared "
+            "path = plain path (preparedGraph_eq_fresh, relatePrepared_eq_plain, selfNoding_keeps_labels; on C17's swap_buildGraph / swap_selfNodes); "
+            "Point x Point and MultiPoint x MultiPoint (all coordinate lists): relateImpl = relateSpec (relateImpl_point_point, "
+            "relateImpl_multiPoint_multiPoint); Point x any geometry B, valid or not: row Boundary is F and row Interior has a single 0 in the column of the "
+            "position the node map records for the point, which is B.coordinate_position(p) whenever p is not a node of B's graph, hence the rows of the "
+            "specification wherever coordinate_position = locate (relateImpl_point_rows, _isolated, relateImpl_point_rows_eq_spec_partial; via the sorted node "
+            "map, slot independence of the label operations and 'every component of B ends up Outside of a point'); the transpose law of the implementation: relateImpl b a = "
+            "(relateImpl a b)^T, panic for panic, in exact arithmetic, for ALL operands, valid or not, without a zero-length Line (relateImpl_transpose, "
+            "relateImpl_transpose_total; from relateImpl_transpose_partial, whose hypothesis 'every edge end has non-zero length' is discharged by: edges built by "
+            "GeometryGraph::new have no two equal consecutive coordinates, self-noding and the mutual phase keep sorted lists of valid records on them, so "
+            "EdgeEndBuilder's stubs never have length zero) and, through it, the columns of relate(A, Point) from the rows of relate(Point, A) "
+            "(relateImpl_point_cols_partial) — via: compare_direction is a strict "
+            "weak order on the edge ends of a node (quadrant, then sign of the cross product; transitivity inside a quadrant by the sine addition identity: "
+            "impl_compareDirection_spec, impl_direction_order_transitive), hence the star of a node is independent of the insertion order of its edge ends up to "
+            "the order inside a bundle (impl_star_order_independent), the label of a bundle is independent of the order of its edge ends and swapped by the label "
+            "swap (impl_bundleLabel_perm/_swap), bundle labelling / propagate_side_labels / collapse flag / fill act on one label slot at a time so they commute "
+            "across slots (impl_starLabels_swap), line_intersection is symmetric (C11 li_symm) so the mutual phase is, and a sorted node map is determined by its "
+            "look-ups. Without the hypothesis the law is false of the code "
+            "as written: a zero-length Line makes a zero-length edge end whose key compares Equal to every key, so the bundles depend on "
+            "insertion order (relateImpl_transpose_fails_witness: triangle x zero-length Line at a vertex, FF21F1FF2 vs 10FFFF2F2, the real code agrees); "
+            "all-pairs loop of the model = R-tree candidate traversal of the code in exact arithmetic: compute_edge_distance is injective along a segment "
+            "(impl_edgeDistance_injective), so the key (segment index, distance) of an EdgeIntersection determines its coordinate, the BTreeSet of an edge is the "
+            "canonical sorted list of the set of intersections found, and visiting any candidate list that contains all pairs with intersecting envelopes — in "
+            "any order, with repetitions — gives the same edges, is_isolated flags and proper-intersection flags, in self-noding and in the mutual phase "
+            "(selfNoding_order_independent, selfNoded_edges_wellFormed, mutualPhase_order_independent). relate never panics: "
+            "for all operands, valid or not, without a zero-length Line and with closed polygon rings (the geo-types invariant) the model reaches its end in exact "
+            "arithmetic — none of 'node should have been labeled by now', the slice indexing of EdgeEndBuilder, 'can't create empty edge', 'found single null "
+            "side', 'found partial label' can happen (relateImpl_never_panics; hence relateImpl_transpose_closed for the total function). Not "
+            "proved: relateImpl = relateSpec on the validity domain in general (Line x Line and beyond).",
     "note": "Trusted: Lean kernel + audited axioms; the harness/generators (sampling); spec adequacy S1/S2. Defects found by this check and repaired in /repo: "
-            "Triangle vertical edge (29720670), MultiPolygon shared vertex (5f41a6da), MultiLineString boundary_dimensions mod-2 (17c66966).",
+            "Triangle vertical edge (29720670), MultiPolygon shared vertex (5f41a6da), MultiLineString boundary_dimensions mod-2 (17c66966). The algorithm of "
+            "relate is now modelled (relateImpl) and compared with the code on valid and invalid operands; K10 as seen from relate (subnormal coordinate: two "
+            "crossing valid segments reported disjoint) is an open known finding outside the property's stated domain.",
 }
